@@ -277,3 +277,23 @@ theorem RepeatedEnum_eq (oracle : Nat → Bytes) (field : Int) (n : Int) (fn : N
   cases alwaysAnyBytesLow oracle (Enc.appendTag field 2) (fun b => .ok (enumLoop oracle fn n.toNat 0 b)) enc <;> rfl
 
 end Pico.GoTie.E
+
+namespace Pico.GoTie.E
+open Pico Pico.EncLow
+
+/-- message.go `Marshal(msg)`: a fresh encoder (nil buffer), `msg.Encode`, the logical bytes -/
+theorem Marshal_eq (oracle : Nat → Bytes) (encode : Buf → Res (Buf × Bool)) :
+    GoSrc.Encoder.Marshal oracle encode
+      = (do let r ← encode ⟨[], []⟩; pure (r.1.data, none)) := by
+  unfold GoSrc.Encoder.Marshal GoSrc.Encoder.Buffer
+  simp only []
+
+/-- message.go `MarshalBuffer(msg, buffer)`: the encoder starts on `buffer[:0]` — everything the
+caller's buffer held is stale capacity -/
+theorem MarshalBuffer_eq (oracle : Nat → Bytes) (encode : Buf → Res (Buf × Bool)) (buffer : Bytes) :
+    GoSrc.Encoder.MarshalBuffer oracle encode buffer
+      = (do let r ← encode ⟨[], buffer⟩; pure (r.1.data, none)) := by
+  unfold GoSrc.Encoder.MarshalBuffer GoSrc.Encoder.Buffer GoBuf.ofSliceZero
+  simp only []
+
+end Pico.GoTie.E
